@@ -366,6 +366,9 @@ def extra_checks(tier, seed):
              "witness": {"skipped": skipped}, "replay": {"skipped": skipped}}]
 
 
+# checks whose proof units establish the callee contracts applied here (re-verified by this check, see main.dependency_units)
+DEPENDENCIES = ['C04', 'C05', 'C12']
+
 META = {
     "level": "proof",
     "bounds": {"classes": "all live command/event classes (329) taken from the registry at run time",
